@@ -713,6 +713,19 @@ func (d *DefaultServerDispatcher) dispatchNextRequest(clientID string) (clientCt
 		log.Errorf("error while sending message: %v", err)
 		// TODO: handle retransmission instead of removing pending request
 		d.CompleteRequest(clientID, callID)
+		// The request may not be in the client's queue at all: it was taken from the queue of an earlier connection of
+		// this client, which reconnected while the request was being dispatched. Then nothing completed it: it must
+		// not stay pending, or nothing is sent to the client any more.
+		d.completionMutex.Lock()
+		_, orphan := d.pendingRequestState.GetClientState(clientID).GetPendingRequest(callID)
+		if orphan {
+			d.pendingRequestState.DeletePendingRequest(clientID, callID)
+		}
+		d.completionMutex.Unlock()
+		if orphan {
+			log.Errorf("dropped request %s for client %s, which belonged to an earlier connection", callID, clientID)
+			d.signalReadyForDispatch(clientID)
+		}
 		if d.onRequestCancel != nil {
 			d.onRequestCancel(clientID, bundle.Call.UniqueId, bundle.Call.Payload,
 				ocpp.NewError(InternalError, err.Error(), bundle.Call.UniqueId))
